@@ -203,6 +203,7 @@ type inliner struct {
 	tfile     map[*ast.File]*token.File
 	curCall   *ast.CallExpr // the call being rewritten (set by helperCall)
 	scanning  bool          // helperCall is only asked whether an expression is a helper call
+	tailCall  bool          // the call being inlined is the operand of a return statement
 }
 
 // inlineRound returns new contents for the files in which at least one call was inlined.
@@ -836,7 +837,9 @@ func (il *inliner) rewriteStmtDirect(f *ast.File, encl *ast.FuncDecl, st ast.Stm
 			}
 			return "", false
 		}
+		il.tailCall = true
 		body, ok := il.body(f, c, h, func(r *ast.ReturnStmt) []ast.Stmt { return []ast.Stmt{r} })
+		il.tailCall = false
 		if !ok {
 			if os.Getenv("SCALINT_INLINE_DEBUG") != "" {
 				fmt.Fprintf(os.Stderr, "inline: %s at line %d refused: body\n", h.key, line)
@@ -870,7 +873,16 @@ func (il *inliner) rewriteStmtDirect(f *ast.File, encl *ast.FuncDecl, st ast.Stm
 			return []ast.Stmt{&ast.BranchStmt{Tok: token.GOTO, Label: ast.NewIdent(end)}}
 		})
 		if !ok {
-			return "", false
+			// a result-less helper that defers: its body runs in a function literal called on the
+			// spot, so its deferred calls still run when *it* returns
+			il.tailCall = true
+			body, ok = il.body(f, c, h, func(r *ast.ReturnStmt) []ast.Stmt { return []ast.Stmt{r} })
+			il.tailCall = false
+			if !ok || !hasDefer(h.body) {
+				return "", false
+			}
+			il.note(h, "statement (literal)", fname, line)
+			return pin("{\n" + pre + "func() {\n" + binds + body + "\n}()\n}"), true
 		}
 		il.note(h, "statement", fname, line)
 		return pin("{\n" + pre + "{\n" + binds + body + "\n}\ngoto " + end + "\n" + end + ":\n}"), true
@@ -1217,7 +1229,7 @@ func (il *inliner) assignForm(f *ast.File, c *ast.CallExpr, h *helper, lhs []ast
 		fmt.Fprintf(&tail, "%sS%d:\n%s\ngoto %s\n", end, k, copyTxt, end)
 	}
 	// arguments are evaluated before the new variables come into scope (x := h(x) reads the outer x)
-	return pin(pre + declsTxt + "{\n" + binds + body + "\n}\ngoto " + end + "\n" + tail.String() + end + ":"), true
+	return pin(pre + declsTxt + "{\n" + binds + body + "\n}\ngoto " + end + "\n" + tail.String() + end + ":;"), true
 }
 
 // bodyGlobals: the names through which the helper's body refers to package-level objects, imported
@@ -1692,7 +1704,7 @@ func (il *inliner) rewriteAssignIf(f *ast.File, encl *ast.FuncDecl, as *ast.Assi
 			}
 			b.WriteString(pin("goto "+le) + "\n")
 		}
-		b.WriteString(pin("goto " + le + "\n" + le + ":"))
+		b.WriteString(pin("goto " + le + "\n" + le + ":;"))
 		if initForm {
 			b.WriteString("\n" + pin("}"))
 		}
@@ -1718,7 +1730,7 @@ func (il *inliner) rewriteAssignIf(f *ast.File, encl *ast.FuncDecl, as *ast.Assi
 		b.WriteString(pin(lf2+":") + "\n")
 	}
 	b.WriteString(elseTxt + "\n")
-	b.WriteString(pin("goto " + le + "\n" + le + ":"))
+	b.WriteString(pin("goto " + le + "\n" + le + ":;"))
 	if initForm {
 		b.WriteString("\n" + pin("}"))
 	}
@@ -1942,6 +1954,21 @@ func (il *inliner) bind(f *ast.File, c *ast.CallExpr, h *helper) (pre, binds str
 	return pb.String(), bb.String(), true
 }
 
+// hasDefer: the block contains a defer statement outside function literals.
+func hasDefer(b *ast.BlockStmt) bool {
+	found := false
+	ast.Inspect(b, func(n ast.Node) bool {
+		switch n.(type) {
+		case *ast.FuncLit:
+			return false
+		case *ast.DeferStmt:
+			found = true
+		}
+		return true
+	})
+	return found
+}
+
 // body prints the helper's body with every return replaced by onReturn's statements (nil = give up).
 // Gives up on helpers whose inlining could change behaviour or scoping.
 func (il *inliner) body(f *ast.File, c *ast.CallExpr, h *helper, onReturn func(*ast.ReturnStmt) []ast.Stmt) (string, bool) {
@@ -1975,7 +2002,12 @@ func (il *inliner) body(f *ast.File, c *ast.CallExpr, h *helper, onReturn func(*
 	ast.Inspect(h.body, func(n ast.Node) bool {
 		switch x := n.(type) {
 		case *ast.DeferStmt:
-			bad = true
+			// a helper that defers can only be inlined where its return is its caller's return
+			// (`return h(a…)`): its deferred calls then run at the very same moment, before the
+			// caller's own — and only without named results, which a deferred call could modify
+			if !il.tailCall || namedDecls != "" {
+				bad = true
+			}
 		case *ast.BasicLit:
 			if x.Kind == token.STRING && strings.Contains(x.Value, "\n") {
 				bad = true
